@@ -351,7 +351,42 @@ func c13Mirror(r *core.Run, rd, wr *core.FuncInfo) {
 	}
 	dinfo := dm.Pkg.TypesInfo
 	n := 0
+	// (one entry read by a helper of the package — buffer in, (key, value, ..) out: the slots are looked for there,
+	// and the decoder must store (first result, second result))
+	slotFn := dm
+	var entryCall *ast.AssignStmt
 	ast.Inspect(dm.Decl.Body, func(x ast.Node) bool {
+		as, ok := x.(*ast.AssignStmt)
+		if !ok || len(as.Rhs) != 1 || len(as.Lhs) < 2 {
+			return true
+		}
+		c, ok := ast.Unparen(as.Rhs[0]).(*ast.CallExpr)
+		if !ok {
+			return true
+		}
+		g := w.Info(core.Callee(dinfo, c))
+		if g == nil || g.Pkg != dm.Pkg || g.Decl.Body == nil {
+			return true
+		}
+		sig := g.Obj.Type().(*types.Signature)
+		if sig.Results().Len() < 2 {
+			return true
+		}
+		for i := 0; i < 2; i++ {
+			if b, ok := sig.Results().At(i).Type().(*types.Basic); !ok || b.Kind() != types.String {
+				return true
+			}
+		}
+		for _, a := range c.Args {
+			if t := dinfo.TypeOf(a); t != nil && strings.HasSuffix(t.String(), "bytes.ByteBuffer") {
+				slotFn, entryCall = g, as
+				r.Fn(g)
+			}
+		}
+		return true
+	})
+	var slots []types.Object
+	ast.Inspect(slotFn.Decl.Body, func(x ast.Node) bool {
 		ifs, ok := x.(*ast.IfStmt)
 		if !ok {
 			return true
@@ -400,6 +435,7 @@ func c13Mirror(r *core.Run, rd, wr *core.FuncInfo) {
 		}
 		n++
 		r.Sites++
+		slots = append(slots, slot)
 		okSlot := true
 		wrong := ""
 		for _, br := range []ast.Node{filled, empty} {
@@ -423,6 +459,51 @@ func c13Mirror(r *core.Run, rd, wr *core.FuncInfo) {
 		r.Check(okSlot, "C13.mirror", "decodeHeapMap: empty "+slot.Name()+" assigns only "+slot.Name(), w.Pos(ifs.Pos()), "slot isolation", "the branch for an empty "+slot.Name()+" assigns '"+wrong+"' instead: an entry with an empty "+slot.Name()+" loses its other half")
 		return true
 	})
+	if entryCall != nil && len(slots) >= 2 {
+		// the helper hands back (first slot, second slot, ..) and the decoder stores (first result, second result)
+		okRet := true
+		ast.Inspect(slotFn.Decl.Body, func(x ast.Node) bool {
+			switch y := x.(type) {
+			case *ast.FuncLit:
+				return false
+			case *ast.ReturnStmt:
+				if len(y.Results) == 0 {
+					res := slotFn.Obj.Type().(*types.Signature).Results()
+					if res.At(0) != slots[0] || res.At(1) != slots[1] {
+						okRet = false
+					}
+				} else if len(y.Results) < 2 || core.ObjOf(dinfo, y.Results[0]) != slots[0] || core.ObjOf(dinfo, y.Results[1]) != slots[1] {
+					okRet = false
+				}
+			}
+			return true
+		})
+		r.Sites++
+		r.Check(okRet, "C13.mirror", "decodeHeapMap: the entry reader hands back (first string read, second string read)", w.Pos(slotFn.Decl.Pos()), "results in reading order",
+			core.ShortKey(slotFn.Obj)+" does not return the two strings in the order it read them: keys and values are mixed up")
+		stored := false
+		ast.Inspect(dm.Decl.Body, func(x ast.Node) bool {
+			as, ok := x.(*ast.AssignStmt)
+			if !ok || len(as.Lhs) != 1 || len(as.Rhs) != 1 {
+				return true
+			}
+			ix, ok := ast.Unparen(as.Lhs[0]).(*ast.IndexExpr)
+			if !ok {
+				return true
+			}
+			if _, isMap := dinfo.TypeOf(ix.X).Underlying().(*types.Map); !isMap {
+				return true
+			}
+			stored = true
+			k, v := core.ObjOf(dinfo, ix.Index), core.ObjOf(dinfo, as.Rhs[0])
+			r.Check(k != nil && v != nil && k == core.ObjOf(dinfo, entryCall.Lhs[0]) && v == core.ObjOf(dinfo, entryCall.Lhs[1]), "C13.mirror", "decodeHeapMap: entry stored as (first string read, second string read)", w.Pos(as.Pos()), "key = first result, value = second result",
+				"the head-map entry is stored as ("+core.ExprString(ix.Index)+", "+core.ExprString(as.Rhs[0])+"), not (first string read, second string read): keys and values are mixed up")
+			return true
+		})
+		if !stored {
+			r.Bad("C13.mirror", "decodeHeapMap: entry stored", w.Pos(dm.Decl.Pos()), "no store into the result map found")
+		}
+	}
 	// a slot read through a helper of the package (buffer in, string out): one call per slot, nothing to mix up
 	var slotVars []types.Object
 	ast.Inspect(dm.Decl.Body, func(x ast.Node) bool {
